@@ -414,7 +414,9 @@ def run(ck, F, E):
                    "GOSUB no longer saves the pre-jump location as the return address", gs.span)
     gl = get_fn(ck, F, "DimArray::get_linear_index")
     if gl is not None:
-        muls = [show(gl.rv_expr(rv)) for b, i, pl, rv, sp in gl.assigns() if rv["k"] == "binop" and rv["op"] == "MulWithOverflow"]
+        from lib import with_closures
+        muls = [show(part.rv_expr(rv)) for part in with_closures(F, gl) for b, i, pl, rv, sp in part.assigns()
+                if rv["k"] == "binop" and rv["op"] == "MulWithOverflow"]
         ck.require(len(muls) == 2, "C03:ARRAY:stride", "cell addressing", "linear += index * stride; stride *= size (first index fastest)",
                    "get_linear_index computes %s" % muls, gl.span, nontrivial=False)
 
@@ -470,7 +472,9 @@ def run(ck, F, E):
                    "attributed to the caller's line instead of the DEF line", ud.span)
     pe = get_fn(ck, F, "Program::populate_error_location")
     if pe is not None:
-        ok = bool(pe.calls_to("Program::get_prev_location")) and bool(pe.calls_to("Program::get_data_location"))
+        from lib import with_helpers
+        hs = with_helpers(F, pe)          # the choice of location may sit in a private helper (`find_error_location`)
+        ok = any(hb.calls_to("Program::get_prev_location") for hb in hs) and any(hb.calls_to("Program::get_data_location") for hb in hs)
         ck.require(ok, "C03:ERRLINE:populate", "error line attribution",
                    "unlocated errors get the previous token's location (DATA type mismatches the DATA item's)",
                    "populate_error_location no longer uses get_prev_location / get_data_location", pe.span)
